@@ -277,7 +277,7 @@ pub fn check_dep(c: &DepCase, obs: &mut Obs) -> Result<(), String> {
 pub fn property() -> Property {
     Property {
         id: "C19",
-        rule: "PkgPath: complete enumeration of all segment sequences of length 0-4 (thorough: 0-6) over {'', '.', '..', 'a', 'b', 'foo', '.. ', '...', 'a.b'}, each with and without a leading '/' and a trailing '/' (thorough: 4 x sum 9^k, k<=6 = 2.4 M strings), plus random strings. Oracle: M-path (split on '/', leading '/' rejected, empty and non-leading '.' segments dropped, accept exactly [N,N] or ['..','..',N,N] with ordinary N); for accepted inputs as_path() is component-equal to cat/pkg and as_full_path() to ../../cat/pkg, the values built from the short and the full spelling are ==, and re-parsing either accessor's output gives an equal value. Depend: complete product of 14 valid/invalid patterns x 12 valid/invalid paths x 7 colon layouts (0-3 colons): Ok iff exactly one ':' and Pattern::new(left) and PkgPath::new(right) are Ok, then pattern() / pkgpath() equal those. Non-trivial = >= 3 segments with an empty / '.' / '..' segment (Depend: >= 1 colon). Distinct = distinct strings.",
+        rule: "PkgPath: complete enumeration of all segment sequences of length 0-4 (thorough: 0-6) over {'', '.', '..', 'a', 'b', 'foo', '.. ', '...', 'a.b'}, each with and without a leading '/' and a trailing '/' (thorough: 4 x sum 9^k, k<=6 = 2.4 M strings), plus random strings. Oracle: M-path (split on '/', leading '/' rejected, empty and non-leading '.' segments dropped, accept exactly [N,N] or ['..','..',N,N] with ordinary N); for accepted inputs as_path() is component-equal to cat/pkg and as_full_path() to ../../cat/pkg, the values built from the short and the full spelling are ==, and re-parsing either accessor's output gives an equal value. Depend: complete product of 14 valid/invalid patterns x 12 valid/invalid paths x 7 colon layouts (0-3 colons): Ok iff exactly one ':' and Pattern::new(left) and PkgPath::new(right) are Ok, then pattern() / pkgpath() equal those. Non-trivial = >= 3 segments with an empty / '.' / '..' segment (Depend: >= 1 colon). Distinct = distinct strings. Generators also draw, at low weight, tokens from the source-literal dictionary (every string / byte / character literal of the library's own source, collected at build time and filtered by this domain's character class) (as segments and pattern halves); category / package of chosen lengths (0-700, powers of two and ten and the source's own numbers with neighbours) in both spellings. Stream depends-random: pattern half from the pools (incl. other dialects' syntax such as [[:digit:]], [^0-9], escaped ':'), the brace grammar, small themed alphabets of structural characters or the dictionary; 0-3 colons; path half from the pool, random, or a small alphabet.",
         assumptions: vec!["paths are compared component-wise (PathBuf semantics), NUL is not generated"],
         streams: vec![
             enumerated_stream("paths-enumerated", "all segment sequences with/without leading and trailing '/'", enumerate, check_path),
